@@ -4,7 +4,7 @@ CONSTANTS
   WithPreamble = {TRUE, FALSE}
   Files <- AllFiles
   Stops <- AllStops
-  MaxUpTo = 3
+  MaxUpTo = 2
 SPECIFICATION CSpec
 INVARIANTS WholeByElements WholeByFragments Progress
 CHECK_DEADLOCK FALSE
